@@ -472,7 +472,8 @@ def run(ctx):
                 cs.append({"part": "hist", "init": init, "prefix": pre, "depth": depth})
     # two large files (the hashing pool): histories that start with a staging / hashing call
     for a in (("build-midwrite", "f1"), ("build",), ("imd5-midwrite", "f1")):
-        cs.append({"part": "hist", "init": "big", "prefix": [list(a)], "depth": depth})
+        for b in ops:
+            cs.append({"part": "hist", "init": "big", "prefix": [list(a), list(b)], "depth": max(depth, 3)})
     for n in (1, 2, 998, 999, 1000, 1001, 1999):
         cs.append({"part": "batch", "n": n})
     cs.append({"part": "forged"})
